@@ -88,10 +88,12 @@ fn gen_string(r: &mut Rng) -> String {
         .collect()
 }
 fn gen_time(r: &mut Rng) -> UtcDateTime {
-    let secs = match r.below(4) {
+    let secs = match r.below(6) {
         0 => -377705116800i64,
         1 => 253402300799i64,
         2 => 0,
+        3 => -((r.next() % 4_000_000_000) as i64),
+        4 => -1,
         _ => (r.next() % 4_000_000_000) as i64,
     };
     let nanos = match r.below(3) {
